@@ -123,6 +123,9 @@ func (s *fstate) kill(root types.Object, path []string) *fstate { return s.killX
 func (s *fstate) killX(root types.Object, path []string, viaCall bool) *fstate {
 	var n *fstate
 	for k, f := range s.facts {
+		if f.S == "called" {
+			continue // an event that happened stays true
+		}
 		hit := mentions(f, root, path)
 		if hit && f.S == "def" && (len(path) > 0 || viaCall) && len(f.A) >= 2 && f.A[0].K == "var" && f.A[0].Obj == root {
 			// a field store through v does not change where the pointer v came from
@@ -1078,7 +1081,30 @@ func (f *e1func) lhsTerm(e ast.Expr) *Term {
 func (f *e1func) transfer(st *fstate, n ast.Node, sites *[]*e1site) []*fstate {
 	st = f.callEffects(st, n)
 	switch s := n.(type) {
+	case *ast.ExprStmt:
+		if call, ok := unparen(s.X).(*ast.CallExpr); ok {
+			if tv, isT := f.info.Types[call.Fun]; !(isT && tv.IsType()) {
+				if ns := st.with(fact("called", f.tb.callTerm(call))); ns != nil {
+					st = ns
+				}
+			}
+		}
+		return []*fstate{st}
 	case *ast.AssignStmt:
+		allBlank := len(s.Rhs) == 1
+		for _, l := range s.Lhs {
+			if id, ok := unparen(l).(*ast.Ident); !ok || id.Name != "_" {
+				allBlank = false
+			}
+		}
+		if allBlank {
+			if call, ok := unparen(s.Rhs[0]).(*ast.CallExpr); ok {
+				if ns := st.with(fact("called", f.tb.callTerm(call))); ns != nil {
+					st = ns
+				}
+			}
+			return []*fstate{st}
+		}
 		var rhs []*Term
 		for _, r := range s.Rhs {
 			rhs = append(rhs, f.term(r))
